@@ -34,7 +34,7 @@ ASSUMPTIONS = [
     "termination of the pI search is restated as bounded progress: at most 100000 line events inside the library's "
     "isoelectric_point function per call; NaN / non-numeric pH is not judged (statement speaks of values outside [0,14])",
 ]
-REQUIRED = {"all": ["salted_objects", "sweep_points", "pH_zero_points", "pH_fourteen_points", "rejected_out_of_range", "pI_calls",
+REQUIRED = {"all": ["salted_objects", "sweep_points", "pH_zero_points", "pH_fourteen_points", "rejected_out_of_range", "rejected_nearest_neighbours_of_0_and_14", "pI_calls",
                     "pI_outside_0_14", "pI_nothing_titrates", "pI_reused_as_pH", "pI_beyond_scale_reused_as_pH", "one_titratable_residue_at_every_length", "numpy_pH_values", "ordered_multi_object_pI"]}
 NRANDOM = {"quick": 1200, "thorough": 6000}
 NPH = {"quick": 40, "thorough": 90}
@@ -45,6 +45,7 @@ SPECIAL = ["RG" * 15, "GRGRGRGRGK", "PR" * 20, "GGGGR" * 12, "Q" * 60 + "K", "GS
            "GSGSGSAAPPLLVV", "R" + "D" * 400, "K" + "E" * 60, "D" + "R" * 200, "GHGYGHGCGH", "GSCGSC", "EEEEEEEEEE",
            "RRRRRRRRRRRRRRRRRRRRRRRRRRRRRRG", "RK" * 30, "Y" * 30, "C" * 30, "HC" * 20, "KRHDECY" * 5, "RRRRRD",
            "MDVFMKGLSKAKEGVVAAAEKTKQGVAEAAGKTKEGVLYVGSKTKEGVVHGVATVAEKTKEQVTNVGGAVVTGVTAVAQKTVEGAGSIAAATGFVKKDQLGKNEEGAPQEGILEDMPVDPDNEAYEMPSEEGYQDYEPEA"]
+EDGE_PH = [-5e-324, -1e-300, -1e-17, -4.4e-16, 14.000000000000002, 14.000000000000004]
 BAD_PH = [-1e-9, -0.001, -1, -1.0, -100, 14.000001, 14.5, 15, 100.0, 1e6, -7, 14 + 1e-9, float("inf"), float("-inf")]
 LINE_BUDGET = 100000
 
@@ -213,6 +214,18 @@ def judge(case, rep, S):
         else:
             rep.viol("accepted_out_of_range", "%s(pH=%r) returned %r on %s" % (name, bad, r, seq[:60]),
                      sig={"getter": name, "pH": repr(bad)})
+    # the nearest neighbours of the two ends: the smallest negative numbers and the first floats above 14 (a range test written
+    # as |pH - 7| > 7 rounds them onto the boundary); every getter, no random choice
+    for bad in EDGE_PH:
+        for name, g in (("NCPR", obj.get_NCPR), ("FCR", obj.get_FCR), ("mean_net_charge", obj.get_mean_net_charge),
+                        ("fraction_expanding", obj.get_fraction_expanding)):
+            try:
+                r = g(pH=bad)
+            except Exception:
+                rep.cnt("rejected_nearest_neighbours_of_0_and_14")
+            else:
+                rep.viol("accepted_out_of_range", "%s(pH=%r) returned %r on %s" % (name, bad, r, seq[:60]),
+                         sig={"getter": name, "pH": repr(bad)})
     if rep.evaluations % 60 == 1:
         rep.sample({"sequence": seq[:80], "pI": pI, "sweep": [[p, v] for p, v in trace[:6]]})
 
